@@ -30,6 +30,7 @@ REQUIRED_OUTCOMES = [
     "accepted/crosses_file",
     "accepted/lastread_lt_skipback",
     "rejected/mandatory",
+    "rejected/beyond_stream",
 ]
 
 
@@ -107,7 +108,7 @@ def run_shard(shard: dict, ctx, res, only=None) -> None:
         res.evaluations += 1
         _one(fil, X, C, N, bounds_, shard, g, start, ns, s, res)
     # the custom allocator argument: the blocks must not depend on which buffer type backs them
-    if only is None or len(only) == 5:
+    if only is None or (len(only) == 5 and only[4] != "beyond"):
         allocs = {"numpy": lambda n: np.zeros(n, dtype=np.uint8), "memoryview": lambda n: memoryview(bytearray(n))}
         for g, start, ns, s in [(2, 0, None, 1), (3, 1, N - 1 if N > 1 else None, 0), (N + 1, 0, None, 0)]:
             if only is not None and [g, start, ns, s] != only[:4]:
@@ -134,6 +135,23 @@ def run_shard(shard: dict, ctx, res, only=None) -> None:
                         res.outcome("accepted/custom_allocator")
                 except Exception as e:  # noqa: BLE001
                     res.violation({"site": "FilReader.read_plan", "symptom": f"raised {type(e).__name__} with a custom allocator", "allocator": aname}, case, repr(e))
+    # requests that reach beyond the stream (outside the quantifier for WHEN they are refused, but inside "no accepted plan ever yields a missing
+    # sample"): iterating such a plan to the end without an exception means fewer samples were delivered than asked for
+    if only is None or (len(only) == 5 and only[4] == "beyond"):
+        for g, start, ns in [(2, max(0, N - 1), 2), (N + 3, 0, N + 1), (1, 0, N + 2), (3, N // 2, N), (2, N, 1)]:
+            if (only is not None and [g, start, ns] != only[:3]) or start + ns <= N:
+                continue
+            res.evaluations += 1
+            case = {"shard": shard, "inner": [g, start, ns, 0, "beyond"]}
+            got = 0
+            try:
+                for nr, _ii, _data in fil.read_plan(gulp=g, start=start, nsamps=ns, description="vf", quiet=True):
+                    got += int(nr)
+            except Exception:  # noqa: BLE001, S110 - refusing (now or later) is the allowed answer
+                res.outcome("rejected/beyond_stream")
+                continue
+            res.violation({"site": "FilReader.read_plan", "symptom": "a request reaching beyond the stream ran to completion without an exception"}, case,
+                          f"N={N} start={start} nsamps={ns} gulp={g}: {got} samples delivered")
     res.sample({"shard": shard, "inner": [2, 0, None, 1]})
 
 
